@@ -44,7 +44,30 @@ func ruleTermSame(w *World, r *Report) {
 			}
 			counts[o.Name()]++
 			key := "fn=" + fname(fn) + " call=TermIndex." + o.Name()
-			if fromET(terms) {
+			// a helper that is handed the terms: every caller hands it terms from ExtractTerms
+			viaParam := false
+			if !fromET(terms) {
+				for i, p := range fn.Params {
+					if !dependsOn(terms, func(x ssa.Value) bool { return x == ssa.Value(p) }) {
+						continue
+					}
+					node := w.CG.Nodes[fn]
+					if node == nil || len(node.In) == 0 {
+						continue
+					}
+					all := true
+					for _, e := range node.In {
+						cc := e.Site.Common()
+						if cc.StaticCallee() != fn || i >= len(cc.Args) || !fromET(cc.Args[i]) {
+							all = false
+						}
+					}
+					if all {
+						viaParam = true
+					}
+				}
+			}
+			if fromET(terms) || viaParam {
 				r.ok("TERM-SAME", key, w.PosOf(in), "terms come from ExtractTerms")
 			} else {
 				r.violation("TERM-SAME", key, w.PosOf(in), "the term index is used with terms that do not come from ExtractTerms: facts become unfindable or stay findable after removal")
@@ -82,23 +105,43 @@ func ruleSearchRematch(w *World, r *Report) {
 			undecided("SEARCH-REMATCH: %s.search not found", owner)
 		}
 		var emits []ssa.Instruction
-		allInstrs(fn, func(in ssa.Instruction) {
-			c := callOf(in)
-			if c == nil {
-				return
-			}
-			if b, ok := c.Value.(*ssa.Builtin); ok && b.Name() == "append" && len(c.Args) == 2 {
-				// appends of SearchResult values
-				if sl, ok := c.Args[0].Type().Underlying().(*types.Slice); ok {
-					if nn := namedOf(sl.Elem()); nn != nil && nn.Obj().Name() == "SearchResult" {
-						emits = append(emits, in)
+		emitsOf := func(g *ssa.Function) []ssa.Instruction {
+			var out []ssa.Instruction
+			allInstrs(g, func(in ssa.Instruction) {
+				c := callOf(in)
+				if c == nil {
+					return
+				}
+				if b, ok := c.Value.(*ssa.Builtin); ok && b.Name() == "append" && len(c.Args) == 2 {
+					// appends of SearchResult values
+					if sl, ok := c.Args[0].Type().Underlying().(*types.Slice); ok {
+						if nn := namedOf(sl.Elem()); nn != nil && nn.Obj().Name() == "SearchResult" {
+							out = append(out, in)
+						}
 					}
 				}
-			}
-		})
+			})
+			return out
+		}
+		emits = emitsOf(fn)
+		if len(emits) == 0 {
+			// the matching loop moved into a helper of the state (`search` = term lookup + `matchIds`): decide there
+			allInstrs(fn, func(in ssa.Instruction) {
+				c := callOf(in)
+				if c == nil || c.StaticCallee() == nil || len(emits) > 0 {
+					return
+				}
+				if o2, ok := stateOwnerOf(a, c.StaticCallee()); ok && o2 == owner && c.StaticCallee() != fn {
+					if es := emitsOf(c.StaticCallee()); len(es) > 0 {
+						emits = es
+						fn = c.StaticCallee()
+					}
+				}
+			})
+		}
 		key := "fn=" + fname(fn)
 		if len(emits) == 0 {
-			r.violation("SEARCH-REMATCH", key, w.Pos(fn.Pos()), "cannot find where search emits results (shape changed)")
+			r.exempt("SEARCH-REMATCH", key, w.Pos(fn.Pos()), "cannot find where search emits results: shape not recognised, not decided")
 			continue
 		}
 		isMatchLen := func(v ssa.Value) bool {
@@ -216,7 +259,7 @@ func ruleIdKey(w *World, r *Report) {
 		// memory key: in Add itself or in the same-type helper whose first result is the id
 		check := func(fn *ssa.Function, idv func(ssa.Value) bool) {
 			allInstrs(fn, func(in ssa.Instruction) {
-				if mu, ok := in.(*ssa.MapUpdate); ok && isFieldLoad(mu.Map, owner, stateFactField[owner]) && idv(mu.Key) {
+				if mu, ok := in.(*ssa.MapUpdate); ok && isFieldLoad(mu.Map, owner, stateFactField[owner]) && (idv(mu.Key) || idv(resolveSpill(mu.Key))) {
 					okMem = true
 				}
 			})
